@@ -13,9 +13,29 @@ import (
 )
 
 // refCT is a ciphertext as the standard defines it: the point C1 and the strings C2, C3.
+// bl is the byte length of a field element, l = ceil(log2(p)/8) (GB/T 32918.1 §4.2.5); 0 stands for 32.
 type refCT struct {
 	C1     ecref.Point
 	C2, C3 []byte
+	bl     int
+}
+
+func flOf(bl int) int {
+	if bl == 0 {
+		return 32
+	}
+	return bl
+}
+
+// bytesN is the fixed-width big-endian field-element-to-byte-string conversion.
+func bytesN(bl int, v *big.Int) []byte { b := make([]byte, flOf(bl)); v.FillBytes(b); return b }
+
+// encPoint is the point-to-byte-string conversion of GB/T 32918.1 §4.2.9: 04||x||y or (02|03)||x.
+func encPoint(bl int, p ecref.Point, comp bool) []byte {
+	if comp {
+		return append([]byte{2 | byte(p.Y.Bit(0))}, bytesN(bl, p.X)...)
+	}
+	return append(append([]byte{4}, bytesN(bl, p.X)...), bytesN(bl, p.Y)...)
 }
 
 func allZero(b []byte) bool {
@@ -28,22 +48,28 @@ func allZero(b []byte) bool {
 }
 
 // shared is x2||y2 of S = [k]P (encryption side) or [d]C1 (decryption side).
-func sharedBytes(s ecref.Point) (x2, y2 []byte) { return ecref.Bytes32(s.X), ecref.Bytes32(s.Y) }
+func sharedBytesN(bl int, s ecref.Point) (x2, y2 []byte) { return bytesN(bl, s.X), bytesN(bl, s.Y) }
 
-func maskOf(s ecref.Point, n int) []byte {
-	x2, y2 := sharedBytes(s)
+func maskOf(s ecref.Point, n int) []byte { return maskOfN(0, s, n) }
+
+func maskOfN(bl int, s ecref.Point, n int) []byte {
+	x2, y2 := sharedBytesN(bl, s)
 	return sm3ref.KDF(append(append([]byte{}, x2...), y2...), n)
 }
 
-func c3Of(s ecref.Point, msg []byte) []byte {
-	x2, y2 := sharedBytes(s)
+func c3Of(s ecref.Point, msg []byte) []byte { return c3OfN(0, s, msg) }
+
+func c3OfN(bl int, s ecref.Point, msg []byte) []byte {
+	x2, y2 := sharedBytesN(bl, s)
 	h := sm3ref.Sum(append(append(append([]byte{}, x2...), msg...), y2...))
 	return h[:]
 }
 
 // sealWith is GB/T 32918.4 §6.1 steps A5-A7 given C1 and the shared point S; ok=false when t is all zero.
-func sealWith(c1, s ecref.Point, msg []byte) (refCT, bool) {
-	t := maskOf(s, len(msg))
+func sealWith(c1, s ecref.Point, msg []byte) (refCT, bool) { return sealWithN(0, c1, s, msg) }
+
+func sealWithN(bl int, c1, s ecref.Point, msg []byte) (refCT, bool) {
+	t := maskOfN(bl, s, len(msg))
 	if len(msg) > 0 && allZero(t) {
 		return refCT{}, false
 	}
@@ -51,21 +77,30 @@ func sealWith(c1, s ecref.Point, msg []byte) (refCT, bool) {
 	for i := range msg {
 		c2[i] = msg[i] ^ t[i]
 	}
-	return refCT{C1: c1, C2: c2, C3: c3Of(s, msg)}, true
+	return refCT{C1: c1, C2: c2, C3: c3OfN(bl, s, msg), bl: bl}, true
 }
 
+// muler yields [k]Q for one fixed point Q (a window table, or a walk of small multiples).
+type muler interface{ Mul(k *big.Int) ecref.Point }
+
 // fastEncryptWithK is ecref.EncryptWithK with [k]G and [k]P taken from window tables (cross-checked in SelfTest).
-func fastEncryptWithK(g, p *c06.Table, k *big.Int, msg []byte) (refCT, bool) {
+func fastEncryptWithK(g, p muler, k *big.Int, msg []byte) (refCT, bool) {
+	return fastEncryptWithKN(0, g, p, k, msg)
+}
+
+func fastEncryptWithKN(bl int, g, p muler, k *big.Int, msg []byte) (refCT, bool) {
 	s := p.Mul(k)
 	if s.Inf {
 		return refCT{}, false
 	}
-	return sealWith(g.Mul(k), s, msg)
+	return sealWithN(bl, g.Mul(k), s, msg)
 }
 
 // openWith is GB/T 32918.4 §7.1 steps B4-B6 given the shared point.
-func openWith(s ecref.Point, c2, c3 []byte) ([]byte, bool) {
-	t := maskOf(s, len(c2))
+func openWith(s ecref.Point, c2, c3 []byte) ([]byte, bool) { return openWithN(0, s, c2, c3) }
+
+func openWithN(bl int, s ecref.Point, c2, c3 []byte) ([]byte, bool) {
+	t := maskOfN(bl, s, len(c2))
 	if len(c2) > 0 && allZero(t) {
 		return nil, false
 	}
@@ -73,7 +108,7 @@ func openWith(s ecref.Point, c2, c3 []byte) ([]byte, bool) {
 	for i := range m {
 		m[i] = c2[i] ^ t[i]
 	}
-	if !bytes.Equal(c3Of(s, m), c3) {
+	if !bytes.Equal(c3OfN(bl, s, m), c3) {
 		return nil, false
 	}
 	return m, true
@@ -107,27 +142,41 @@ func (l layout) String() string {
 func (l layout) encode(ct refCT) []byte {
 	if l.asn1 {
 		var body []byte
-		body = append(body, c06.TLV(0x02, c06.IntContent(ct.C1.X))...)
-		body = append(body, c06.TLV(0x02, c06.IntContent(ct.C1.Y))...)
-		body = append(body, c06.TLV(0x04, ct.C3)...)
-		body = append(body, c06.TLV(0x04, ct.C2)...)
-		return c06.TLV(0x30, body)
+		body = append(body, derEnc(0x02, c06.IntContent(ct.C1.X))...)
+		body = append(body, derEnc(0x02, c06.IntContent(ct.C1.Y))...)
+		body = append(body, derEnc(0x04, ct.C3)...)
+		body = append(body, derEnc(0x04, ct.C2)...)
+		return derEnc(0x30, body)
 	}
-	var out []byte
-	if l.comp {
-		out = ct.C1.Compressed()
-	} else {
-		out = ct.C1.Uncompressed()
-	}
+	out := encPoint(ct.bl, ct.C1, l.comp)
 	if l.order == 0 {
 		return append(append(out, ct.C3...), ct.C2...)
 	}
 	return append(append(out, ct.C2...), ct.C3...)
 }
 
+// derEnc is tag || definite minimal length octets (X.690 §8.1.3, any length below 2^32) || content.
+func derEnc(tag byte, content []byte) []byte {
+	n := len(content)
+	out := []byte{tag}
+	switch {
+	case n < 0x80:
+		out = append(out, byte(n))
+	case n < 0x100:
+		out = append(out, 0x81, byte(n))
+	case n < 0x10000:
+		out = append(out, 0x82, byte(n>>8), byte(n))
+	case n < 0x1000000:
+		out = append(out, 0x83, byte(n>>16), byte(n>>8), byte(n))
+	default:
+		out = append(out, 0x84, byte(n>>24), byte(n>>16), byte(n>>8), byte(n))
+	}
+	return append(out, content...)
+}
+
 // hybridEncode is 06/07 || x || y with the given (possibly wrong) parity bit.
 func hybridEncode(ct refCT, order int, parity uint) []byte {
-	out := append([]byte{6 | byte(parity)}, ct.C1.Uncompressed()[1:]...)
+	out := append([]byte{6 | byte(parity)}, encPoint(ct.bl, ct.C1, false)[1:]...)
 	if order == 0 {
 		return append(append(out, ct.C3...), ct.C2...)
 	}
@@ -183,6 +232,11 @@ func derUint(b []byte) (*big.Int, bool) {
 // the first byte exactly as GB/T 32918.1 §4.2.9 / GM/T 0009 define it. hybrid=true reports a 06/07 prefix
 // (a form the property does not list as supported: the oracle leaves it open).
 func parseCT(c *ecref.Curve, ct []byte, order int) (r refCT, ok bool, hybrid bool) {
+	return parseCTN(c, 0, ct, order)
+}
+
+func parseCTN(c *ecref.Curve, bl0 int, ct []byte, order int) (r refCT, ok bool, hybrid bool) {
+	bl := flOf(bl0)
 	if len(ct) == 0 {
 		return refCT{}, false, false
 	}
@@ -217,27 +271,27 @@ func parseCT(c *ecref.Curve, ct []byte, order int) (r refCT, ok bool, hybrid boo
 		if !c.OnCurve(p) {
 			return refCT{}, false, false
 		}
-		return refCT{C1: p, C2: c2, C3: c3}, true, false
+		return refCT{C1: p, C2: c2, C3: c3, bl: bl0}, true, false
 	case 0x04, 0x06, 0x07:
-		if len(ct) < 65+32 {
+		if len(ct) < 1+2*bl+32 {
 			return refCT{}, false, false
 		}
-		p := ecref.Point{X: new(big.Int).SetBytes(ct[1:33]), Y: new(big.Int).SetBytes(ct[33:65])}
+		p := ecref.Point{X: new(big.Int).SetBytes(ct[1 : 1+bl]), Y: new(big.Int).SetBytes(ct[1+bl : 1+2*bl])}
 		if !c.OnCurve(p) {
 			return refCT{}, false, false
 		}
-		c2, c3 := split(ct[65:], order)
-		return refCT{C1: p, C2: c2, C3: c3}, true, ct[0] != 0x04
+		c2, c3 := split(ct[1+2*bl:], order)
+		return refCT{C1: p, C2: c2, C3: c3, bl: bl0}, true, ct[0] != 0x04
 	case 0x02, 0x03:
-		if len(ct) < 33+32 {
+		if len(ct) < 1+bl+32 {
 			return refCT{}, false, false
 		}
-		p, ok := c.LiftX(new(big.Int).SetBytes(ct[1:33]), uint(ct[0]&1))
+		p, ok := c.LiftX(new(big.Int).SetBytes(ct[1:1+bl]), uint(ct[0]&1))
 		if !ok {
 			return refCT{}, false, false
 		}
-		c2, c3 := split(ct[33:], order)
-		return refCT{C1: p, C2: c2, C3: c3}, true, false
+		c2, c3 := split(ct[1+bl:], order)
+		return refCT{C1: p, C2: c2, C3: c3, bl: bl0}, true, false
 	}
 	return refCT{}, false, false
 }
@@ -255,7 +309,11 @@ type decryptor struct {
 	d    *big.Int
 	memo map[string]ecref.Point
 	muls int
+	bl   int // byte length of a field element; 0 stands for 32
 }
+
+// know records a shared point [d]C1 that the caller obtained another way (e.g. [k]P for C1 = [k]G).
+func (dc *decryptor) know(c1, s ecref.Point) { dc.memo[c1.X.String()+"|"+c1.Y.String()] = s }
 
 func newDecryptor(c *ecref.Curve, d *big.Int) *decryptor {
 	return &decryptor{c: c, d: d, memo: map[string]ecref.Point{}}
@@ -275,7 +333,7 @@ func (dc *decryptor) shared(c1 ecref.Point) ecref.Point {
 // open returns the specification's verdict on a byte string: (message, true) or rejection.
 // open_ is true when the property leaves the verdict open (hybrid C1 form, empty C2).
 func (dc *decryptor) open(ct []byte, order int) (msg []byte, accept bool, open_ bool) {
-	r, ok, hybrid := parseCT(dc.c, ct, order)
+	r, ok, hybrid := parseCTN(dc.c, dc.bl, ct, order)
 	if !ok {
 		return nil, false, false
 	}
@@ -283,7 +341,7 @@ func (dc *decryptor) open(ct []byte, order int) (msg []byte, accept bool, open_ 
 	if s.Inf {
 		return nil, false, false
 	}
-	m, ok := openWith(s, r.C2, r.C3)
+	m, ok := openWithN(dc.bl, s, r.C2, r.C3)
 	if !ok {
 		return nil, false, false
 	}
